@@ -254,6 +254,9 @@ func C10(c *runner.Cfg) *report.Result {
 			bad("float64-as-float32:wrong-value", "float64->DecodeFloat32", val, b, fmt.Sprintf("got %v", g32))
 		case exact && v != v && g32 == g32:
 			bad("float64-as-float32:nan-lost", "float64->DecodeFloat32", val, b, fmt.Sprintf("got %v", g32))
+		case !exact && err == nil && !math.IsInf(v, 0) && math.Abs(v) > math.MaxFloat32:
+			// also the values between MaxFloat32 and the rounding midpoint, which float32(v) would clamp to MaxFloat32
+			bad("float64-as-float32:accepts-out-of-range", "float64->DecodeFloat32", val, b, fmt.Sprintf("got %v without error", g32))
 		case !exact && err == nil && !math.IsInf(v, 0) && math.IsInf(float64(g32), 0):
 			bad("float64-as-float32:overflow-to-inf", "float64->DecodeFloat32", val, b, "finite value read as infinity without error")
 		case !exact && err == nil && math.Float32bits(g32) != math.Float32bits(n32):
